@@ -198,6 +198,26 @@ def bool_node_strict(z):
         r = acc
         _BRIDGE[k] = (r, z)
         return r
+    if z3.is_implies(z) or (z3.is_eq(z) and z3.is_bool(z.arg(0))) or z3.is_distinct(z) and z.num_args() == 2 and z3.is_bool(z.arg(0)):
+        a = bool_node_strict(z.arg(0))
+        if a is None:
+            return None
+        b = bool_node_strict(z.arg(1))
+        if b is None:
+            return None
+        if z3.is_implies(z):
+            f = lambda x, y: (not x) or y  # noqa
+        elif z3.is_eq(z):
+            f = lambda x, y: bool(x) == bool(y)  # noqa
+        else:
+            f = lambda x, y: bool(x) != bool(y)  # noqa
+        try:
+            r = fd.apply(f, a, b)
+        except (fd.TooBig, fd.ApplyRaise):
+            return None
+        if isinstance(r, fd.Node):
+            _BRIDGE[k] = (r, z)
+        return r
     if z3.is_eq(z) and not z3.is_bool(z.arg(0)):
         a = term_to_fd(z.arg(0))
         if a is None:
@@ -573,6 +593,10 @@ class TooManyLeaves(Exception):
     pass
 
 
+class UnsupportedOp(Exception):
+    """operation outside the supported subset (pyvc.interp.Unsupported derives from it)"""
+
+
 _CTX = z3.main_ctx()
 _CREF = _CTX.ref()
 _TRUE = z3.BoolVal(True)
@@ -761,6 +785,8 @@ def fv_apply(f, *args):
     for a in args:
         if isinstance(a, SBool):
             a = bool_node(a.z)
+        elif isinstance(a, (SStr, SInt, SMap, SSeq)):
+            raise UnsupportedOp("abstract value in a leaf-wise application: %r" % (a,))
         conv.append(a)
     try:
         r = fd.apply(f, *conv)
